@@ -303,6 +303,8 @@ def seg_map(ix):
     r = ix.reader()
     try:
         for lr, _ in r.leaf_readers():
+            if lr.segment() is None:     # EmptyReader: the index has no segment at this point
+                continue
             sid = lr.segment().segment_id()
             for dn in lr.all_doc_ids():
                 m[lr.stored_fields(dn)["id"]] = sid
@@ -411,6 +413,8 @@ def run_history(ctx, st, schema, commits, info):
         if os.environ.get("C06_DEBUG"):
             rr = ix.reader()
             for lr, _ in rr.leaf_readers():
+                if lr.segment() is None:
+                    continue
                 sid = lr.segment().segment_id()
                 act = sorted(t.decode() for f, t in lr.all_terms() if f == "spell_body")
                 mod = sorted(set().union(*anchors.get(sid, {}).values())) if anchors.get(sid) else []
@@ -580,6 +584,9 @@ def one_case(ctx, rng, idx):
     from whoosh.filedb.filestore import RamStorage, FileStorage
     opts, ops, remove = gen_program(rng, ctx)
     groups = final_groups(ops)
+    if not groups:
+        ctx.count("c06.cases.everything_deleted")
+        return ("empty",), False, {"program": "every document deleted"}
     probes, pw = make_probes(rng, remove)
     schema_final = make_schema(opts, without=remove)
     exp_stored, exp_members, exp_nparent, exp_nchildren = model_expectations(groups, pw, remove)
